@@ -805,6 +805,118 @@ template <class K> struct World {
         s.equed[0] = 'N';
     }
 
+    // ---- stand-alone utilities a caller combines with the drivers (conversion, copies, right-hand-side set-up, printing, MC64) ----
+    // o.stages selects which ones run; every result is compared with what the harness computes itself.
+    void op_util(const Op &o, OpResult &r) {
+        Slot<K> &s = slots[o.slot];
+        if (!s.haveA) { r.skipped = true; r.skip_reason = "no matrix"; return; }
+        // the matrix is used as it stands (it may hold equilibrated values between an expert call and its re-solves)
+        const Mat &M = s.orig; int m = s.m, n = s.n; long nnz = s.nnz;
+        int sel = o.stages ? o.stages : 63;
+        uint64_t steps0 = ctx->steps;
+        rt_op_begin(ctx, (int)trace.size() - 1, o.faults);
+        Hash64 h;
+        auto same = [](S a, S b) { return memcmp(&a, &b, sizeof(S)) == 0; };
+        if (sel & 1) { // row-compressed -> column-compressed conversion (allocates the three result arrays)
+            std::vector<int> rp, ci; std::vector<double> re, im; csc_to_csr(M, rp, ci, re, im);
+            S *a = cmalloc<S>(nnz); int_t *colind = cmalloc<int_t>(nnz); int_t *rowptr = cmalloc<int_t>(m + 1);
+            for (long k = 0; k < nnz; k++) { a[k] = ScalarOps<S>::make(re[k], im[k]); colind[k] = ci[k]; }
+            for (int i = 0; i <= m; i++) rowptr[i] = rp[i];
+            S *at = nullptr; int_t *rowind = nullptr, *colptr = nullptr;
+            K::CompRow_to_CompCol(m, n, (int_t)nnz, a, colind, rowptr, &at, &rowind, &colptr);
+            bool ok = at && rowind && colptr;
+            if (ok) { for (int j = 0; j <= n && ok; j++) if (colptr[j] != M.colptr[j]) ok = false;
+                for (long k = 0; k < nnz && ok; k++) if (rowind[k] != M.rowind[k] || !same(at[k], ScalarOps<S>::make(M.re[k], M.im[k]))) ok = false; }
+            if (!ok) viol(r, "util", "CompRow_to_CompCol does not return the matrix it was given");
+            for (long k = 0; k < nnz; k++) if (colind[k] != ci[k] || !same(a[k], ScalarOps<S>::make(re[k], im[k]))) { viol(r, "util", "CompRow_to_CompCol changed its input"); break; }
+            if (at) sim_free(at, __FILE__, __func__, __LINE__);
+            if (rowind) sim_free(rowind, __FILE__, __func__, __LINE__);
+            if (colptr) sim_free(colptr, __FILE__, __func__, __LINE__);
+            rt_caller_free(a); rt_caller_free(colind); rt_caller_free(rowptr);
+        }
+        if ((sel & 2) && s.storage == 0) { // copy into a matrix of the same shape prepared by the caller
+            S *bv = cmalloc<S>(nnz); int_t *bi = cmalloc<int_t>(nnz); int_t *bp = cmalloc<int_t>(n + 1);
+            memset(bv, 0x5A, sizeof(S) * nnz); memset(bi, 0x5A, sizeof(int_t) * nnz); memset(bp, 0x5A, sizeof(int_t) * (n + 1));
+            SuperMatrix Bm; K::Create_CompCol_Matrix(&Bm, m, n, (int_t)nnz, bv, bi, bp, SLU_NC, K::dtype, SLU_GE);
+            K::Copy_CompCol_Matrix(&s.A, &Bm);
+            NCformat *As = (NCformat *)s.A.Store, *Bs = (NCformat *)Bm.Store;
+            bool ok = Bm.nrow == m && Bm.ncol == n && Bs->nnz == As->nnz && !memcmp(bv, As->nzval, sizeof(S) * nnz) && !memcmp(bi, As->rowind, sizeof(int_t) * nnz) && !memcmp(bp, As->colptr, sizeof(int_t) * (n + 1));
+            if (!ok) viol(r, "util", "Copy_CompCol_Matrix: the copy differs from the original");
+            Destroy_CompCol_Matrix(&Bm);
+        }
+        int nrhs = std::max(1, o.nrhs), mx = std::max(m, n);
+        int ldx = mx + o.ldpad, ldb = mx + (o.ldpad ? 1 : 0);
+        if (sel & 4) { // dense copy between different leading dimensions: the padding rows of the target stay untouched
+            S *X = cmalloc<S>((size_t)ldx * nrhs), *Y = cmalloc<S>((size_t)ldb * nrhs);
+            Rng g(o.rhs_seed ^ 0x44); for (long k = 0; k < (long)ldx * nrhs; k++) X[k] = ScalarOps<S>::make(g.sym(), g.sym());
+            memset(Y, 0x3C, sizeof(S) * (size_t)ldb * nrhs);
+            K::Copy_Dense_Matrix(n, nrhs, X, ldx, Y, ldb);
+            bool ok = true; S pad; memset(&pad, 0x3C, sizeof pad);
+            for (int j = 0; j < nrhs; j++) for (int i = 0; i < ldb; i++) { S want = i < n ? X[i + (size_t)j * ldx] : pad; if (!same(Y[i + (size_t)j * ldb], want)) ok = false; }
+            if (!ok) viol(r, "util", "Copy_Dense_Matrix: wrong copy or padding rows written");
+            rt_caller_free(X); rt_caller_free(Y);
+        }
+        if ((sel & 8) && s.storage == 0) { // right-hand side for a known solution, sparse matrix times dense block
+            bool tr = o.trans != NOTRANS;
+            int xr = tr ? m : n, br = tr ? n : m; // rows of x / of b
+            S *xt = cmalloc<S>((size_t)ldx * nrhs), *bb = cmalloc<S>((size_t)ldb * nrhs);
+            memset(xt, 0, sizeof(S) * (size_t)ldx * nrhs); memset(bb, 0x3C, sizeof(S) * (size_t)ldb * nrhs);
+            if (m == n) K::GenXtrue(n, nrhs, xt, ldx);
+            else { Rng g(o.rhs_seed ^ 0x88); for (int j = 0; j < nrhs; j++) for (int i = 0; i < xr; i++) xt[i + (size_t)j * ldx] = ScalarOps<S>::make(g.sym(), g.sym()); }
+            SuperMatrix Bm; K::Create_Dense_Matrix(&Bm, br, nrhs, bb, ldb, SLU_DN, K::dtype, SLU_GE);
+            if (m == n) K::FillRHS((trans_t)(tr ? TRANS : NOTRANS), nrhs, xt, ldx, &s.A, &Bm);
+            else { char ta[2] = {tr ? 'T' : 'N', 0}, tb[2] = {'N', 0}; S one = ScalarOps<S>::make(1, 0), zero = ScalarOps<S>::make(0, 0);
+                K::sp_gemm(ta, tb, br, nrhs, xr, one, &s.A, xt, ldx, zero, bb, ldb); }
+            // reference product in long double
+            double eps = sizeof(R) == 4 ? 1.2e-7 : 2.3e-16; bool ok = true; S pad; memset(&pad, 0x3C, sizeof pad);
+            for (int j = 0; j < nrhs && ok; j++) {
+                std::vector<ld> yr(br, 0), yi(br, 0), ya(br, 0);
+                for (int c = 0; c < n; c++) for (int k = M.colptr[c]; k < M.colptr[c + 1]; k++) {
+                    int rr = M.rowind[k]; S av = ((S *)((NCformat *)s.A.Store)->nzval)[k]; ld ar = ScalarOps<S>::re(av), ai = ScalarOps<S>::im(av);
+                    int xi = tr ? rr : c, yi_ = tr ? c : rr; ld xr_ = ScalarOps<S>::re(xt[xi + (size_t)j * ldx]), xim = ScalarOps<S>::im(xt[xi + (size_t)j * ldx]);
+                    yr[yi_] += ar * xr_ - ai * xim; yi[yi_] += ar * xim + ai * xr_; ya[yi_] += (fabsl(ar) + fabsl(ai)) * (fabsl(xr_) + fabsl(xim));
+                }
+                for (int i = 0; i < ldb; i++) { S got = bb[i + (size_t)j * ldb];
+                    if (i >= br) { if (!same(got, pad)) ok = false; continue; }
+                    ld dr = ScalarOps<S>::re(got) - yr[i], di = ScalarOps<S>::im(got) - yi[i];
+                    if (!(fabsl(dr) + fabsl(di) <= 8 * (n + 2) * eps * ya[i] + 1e-300L)) ok = false; }
+            }
+            if (!ok) viol(r, "util", "FillRHS / sp_gemm: product differs from the reference or padding rows written");
+            if (m == n) { SuperMatrix Xm; K::Create_Dense_Matrix(&Xm, n, nrhs, xt, ldx, SLU_DN, K::dtype, SLU_GE); K::inf_norm_error(nrhs, &Xm, xt); Destroy_SuperMatrix_Store(&Xm); }
+            Destroy_SuperMatrix_Store(&Bm);
+            rt_caller_free(xt); rt_caller_free(bb);
+        }
+        if (sel & 16) { // diagnostic printing walks every array of the objects it is given
+            char nm[8] = "A";
+            if (s.storage == 0) K::Print_CompCol_Matrix(nm, &s.A);
+            if (s.haveLU && s.lu_valid) { char ln[8] = "L", un[8] = "U"; K::Print_SuperNode_Matrix(ln, &s.L); K::Print_CompCol_Matrix(un, &s.U); }
+            S *d = cmalloc<S>((size_t)ldx * nrhs); memset(d, 0, sizeof(S) * (size_t)ldx * nrhs);
+            SuperMatrix Dm; K::Create_Dense_Matrix(&Dm, n, nrhs, d, ldx, SLU_DN, K::dtype, SLU_GE); char dn[8] = "X"; K::Print_Dense_Matrix(dn, &Dm);
+            Destroy_SuperMatrix_Store(&Dm); rt_caller_free(d);
+            superlu_options_t opt; set_options(o, opt, false); print_options(&opt); set_options(o, opt, true); print_ilu_options(&opt);
+            SuperLUStat_t st; StatInit(&st); StatPrint(&st); StatFree(&st);
+        }
+        if ((sel & 32) && s.storage == 0 && m == n) { // MC64 row permutation (all five jobs), arrays are the caller's and come back unchanged
+            int job = 1 + (int)(o.rhs_seed % 5);
+            NCformat *As = (NCformat *)s.A.Store;
+            std::vector<int_t> cp0(As->colptr, As->colptr + n + 1), ri0(As->rowind, As->rowind + nnz); std::vector<S> nz0((S *)As->nzval, (S *)As->nzval + nnz);
+            int *perm = cmalloc<int>(n); R *u = cmalloc<R>(n), *v = cmalloc<R>(n);
+            for (int i = 0; i < n; i++) { perm[i] = -7; u[i] = v[i] = 0; }
+            int rc = K::ldperm(job, n, (int_t)nnz, As->colptr, As->rowind, (S *)As->nzval, perm, u, v);
+            // rc < 0: request refused (job 1 needs MC21, which is not part of the library); rc = 1: no full matching among the non-zero entries
+            if (memcmp(cp0.data(), As->colptr, sizeof(int_t) * (n + 1)) || memcmp(ri0.data(), As->rowind, sizeof(int_t) * nnz)) viol(r, "util", "ldperm: index arrays not restored");
+            if (memcmp(nz0.data(), As->nzval, sizeof(S) * nnz)) viol(r, "util", "ldperm: values changed");
+            std::vector<char> seen(n, 0); bool isperm = true;
+            for (int i = 0; i < n; i++) { if (perm[i] < 0 || perm[i] >= n || seen[perm[i]]) { isperm = false; break; } seen[perm[i]] = 1; }
+            if (rc == 0 && !isperm) viol(r, "util", "ldperm: result is not a permutation");
+            h.bytes(perm, sizeof(int) * n);
+            rt_caller_free(perm); rt_caller_free(u); rt_caller_free(v);
+        }
+        rt_op_end(ctx);
+        r.steps = ctx->steps - steps0; r.cls = XC_OK;
+        if (cfg.capture) { r.snap.val("util", (long)sel); r.snap.val("perm", (long)h.h); snap_A(s, r.snap, "post"); }
+    }
+
     // ---- Fortran-callable bridge ----
     struct BridgeArgs { int iopt, n, nrhs, ldb; int_t nnz; S *values; int_t *rowind, *colptr; S *b; fptr *f; int_t info; };
     static void body_bridge(World *w, void *p) { BridgeArgs *a = (BridgeArgs *)p; K::bridge(&a->iopt, &a->n, &a->nnz, &a->nrhs, a->values, a->rowind, a->colptr, a->b, &a->ldb, a->f, &a->info); }
@@ -934,6 +1046,7 @@ template <class K> struct World {
         else if (o.kind == "pipe") op_pipe(o, r, false);
         else if (o.kind == "ipipe") op_pipe(o, r, true);
         else if (o.kind == "equil") op_equil(o, r);
+        else if (o.kind == "util") op_util(o, r);
         else if (o.kind == "destroy") { destroy_slot(slots[o.slot]); r.cls = XC_OK; }
         else if (o.kind == "bfactor" || o.kind == "bsolve" || o.kind == "bfree") op_bridge(o, r);
         else { r.skipped = true; r.skip_reason = "unknown op"; }
